@@ -106,9 +106,9 @@ def gen_spec(rng, small=False, datatype=None, version=None, names=None, n_events
         elif k == 'pow2':
             R = 1 << rng.randint(1, w)
         elif k == 'odd':
-            R = rng.randint(2, (1 << min(w, 44)) - 1)
+            R = rng.randint(2, (1 << min(w, 52)) - 1)
         else:
-            R = (1 << rng.randint(1, min(w, 44) - 1)) + 1
+            R = (1 << rng.randint(1, min(w, 52) - 1)) + rng.choice([1, 1, 2, 3])
         ranges.append(R)
     if names is None:
         if rng.chance(0.5):
